@@ -37,19 +37,30 @@ Definition fxsign (af : fmt) (a : Z) : option Z :=
   if fsign af =? 1 then Some (Bit_propagate 1 (fint af + ffrac af) a) else None.
 
 (* FixedPointMult(a, af, b, bf, r, rf):
-     sa, sb, m : wires of width wa+wb;  SignExtend(a, sa); SignExtend(b, sb); Mul(sa, sb, m);
-     low = af[2]+bf[2]-rf[2]; high = low + r.getWidth(); Range(m, high, low, r) *)
-Definition fxmul (af bf rf : fmt) (a b : Z) : option Z :=
+     sa, sb, m : wires of width pw;  SignExtend(a, sa); SignExtend(b, sb); Mul(sa, sb, m);
+     low = af[2]+bf[2]-rf[2]; high = low + r.getWidth(); Range(m, high, low, r).
+   The product width pw is the one thing repair fixes/C14-F1.diff changes, so it is a parameter:
+     wide = false:  pw = wa+wb                     (/repo before the repair of finding C14-F1)
+     wide = true :  pw = max(wa+wb, low+wr)        (after it: the window always lies inside a correctly signed product)
+   The check reads the width of the real `m` wire and uses the matching instance; both are proved. *)
+Definition fxmul_w (pw : Z) (af bf rf : fmt) (a b : Z) : option Z :=
   let wa := fwidth af in
   let wb := fwidth bf in
   let wr := fwidth rf in
-  let ww := wa + wb in
-  let sa := SignExtend_propagate wa ww a in
-  let sb := SignExtend_propagate wb ww b in
-  let m := Mul_propagate ww sa sb in
+  let sa := SignExtend_propagate wa pw a in
+  let sb := SignExtend_propagate wb pw b in
+  let m := Mul_propagate pw sa sb in
   let low := ffrac af + ffrac bf - ffrac rf in
   let high := low + wr in
   if low <? 0 then None else Some (Range_propagate wr high low m).
+
+Definition mul_pw (wide : bool) (af bf rf : fmt) : Z :=
+  if wide then Z.max (fwidth af + fwidth bf) (ffrac af + ffrac bf - ffrac rf + fwidth rf)
+  else fwidth af + fwidth bf.
+
+Definition fxmul_v (wide : bool) (af bf rf : fmt) (a b : Z) : option Z := fxmul_w (mul_pw wide af bf rf) af bf rf a b.
+Definition fxmul := fxmul_v false.
+Definition fxmul_fixed := fxmul_v true.
 
 (* bitwise.And(ins, r): Buf for one input, otherwise the And2 ladder (and0 = in0 & in1, and_k = and_{k-1} & in_{k+1});
    for two inputs the ladder is the single And2 the constructor special-cases. *)
